@@ -61,7 +61,7 @@ type c11Server struct {
 func (s *c11Server) serve(c *memnet.Conn, idx int) {
 	if s.dropFrom >= 0 && idx >= s.dropFrom {
 		switch s.dropKind {
-		case "on-accept":
+		case "on-accept", "on-accept-noticed":
 			c.Close()
 			return
 		case "after-header":
@@ -194,8 +194,22 @@ func c11Bubble(c c11Case) c11Result {
 		srv.mu.Lock()
 		srv.srvConns = append(srv.srvConns, b)
 		srv.mu.Unlock()
+		if srv.dropFrom >= 0 && n >= srv.dropFrom && srv.dropKind == "on-accept-noticed" {
+			// dropped before the dial returns; together with the yield hook below the client's read loop has seen
+			// the EOF before the request is handed to the write loop (with "on-accept" the scheduler decides)
+			b.Close()
+			return a, nil
+		}
 		go srv.serve(b, n)
 		return a, nil
+	}
+	if c.Dir == "server-drops-connections" && c.Kind == "on-accept-noticed" {
+		kmipclient.SetVerifYield(func(point string) {
+			if point == "kmipclient.conn.send.loaded" {
+				time.Sleep(time.Millisecond) // fake time: every other goroutine runs until it blocks
+			}
+		})
+		defer kmipclient.SetVerifYield(nil)
 	}
 	hookHits := 0
 	if c.Dir == "hook-close" {
@@ -588,7 +602,7 @@ func c11Space() []c11Case {
 				if reachable {
 					// a server that keeps accepting and dropping connections (from the first, second or third one on)
 					for at := 0; at <= 2; at++ {
-						for _, k := range []string{"on-accept", "after-header", "after-request"} {
+						for _, k := range []string{"on-accept", "on-accept-noticed", "after-header", "after-request"} {
 							add("server-drops-connections", at, k)
 						}
 					}
